@@ -111,12 +111,12 @@ VH_DRIVER(algebra){
   if(mode=="addbase"){
     size_t total=refs.size()*bases.size()*2; double keep= total>(size_t)want? (double)want/total : 1.0; long k=0;
     for(auto&r:refs) for(auto&b:bases) for(int opt=0;opt<2;++opt){ ++k; if(keep<1.0 && (R.next()%1000000)>=keep*1000000) continue;
-      if(k%2) addbase_event<ApiA>(r,b,opt,(int)(k%3)); else addbase_event<ApiW>(r,b,opt,(int)(k%3));
+      AW(true,k%2,[&]{ addbase_event<ApiA>(r,b,opt,(int)(k%3)); },[&]{ addbase_event<ApiW>(r,b,opt,(int)(k%3)); });
       if(k%5003==0) g.sample(J().str("ref",show(r)).str("base",show(b)).num("opt",opt).done()); }
     // longer random paths
     const char* segs[]={"",".","..","a","b","b:c","%2e","..."}; long extra= g.thorough? 200000: 4000;
     for(long i=0;i<extra;++i){ Text r; if(R.below(6)==0) r=T("s:"); if(R.below(5)==0) r.push_back('/'); int n=1+R.below(10); for(int j=0;j<n;++j){ if(j) r.push_back('/'); r=r+T(segs[R.below(8)]); } if(R.below(4)==0) r=r+T("?q"); if(R.below(4)==0) r=r+T("#f");
-      const Text&b=bases[R.below((int)bases.size())]; if(i%2) addbase_event<ApiA>(r,b,(int)(i%2),(int)(i%3)); else addbase_event<ApiW>(r,b,0,(int)(i%3)); }
+      const Text&b=bases[R.below((int)bases.size())]; AW(true,i%2,[&]{ addbase_event<ApiA>(r,b,(int)(i%2),(int)(i%3)); },[&]{ addbase_event<ApiW>(r,b,g.pair?(int)(i%2):0,(int)(i%3)); }); }
   } else if(mode=="normalize"){
     std::vector<Text> in;
     { std::vector<const char*> sc={"","s:","S:","hTtP:"}, au={"","//","//h","//H%41%7e%3a%3A","//u%3a%41@Ex.COM:1","//[ABCD::1]","//[vF.A:b]","//1.2.3.4","//U:P@h","//u%3A%7e@h%3A%2d"}, qf={"","?","?a%41%7E%3a","#","#F%2f%2F%61","?q#f","?%3A%7E%3a#%3A%61"};
@@ -126,31 +126,31 @@ VH_DRIVER(algebra){
     static const unsigned masks[]={63,0,1,2,4,8,16,32,8|4,63^8,1|32,0x40|8,0xFFFFFFFFu};
     size_t total=in.size()*(g.thorough?64:6); double keep= total>(size_t)want? (double)want/total:1.0; long k=0;
     for(auto&t:in){ int nm= g.thorough?64:6; for(int mi=0;mi<nm;++mi){ ++k; if(keep<1.0 && (R.next()%1000000)>=keep*1000000) continue; unsigned m= g.thorough? (unsigned)mi : masks[(k+mi)%13];
-        bool owned=(k%2)==0; int ep=(int)(k%3); if(k%4<2) normalize_event<ApiA>(t,m,owned,ep); else normalize_event<ApiW>(t,m,owned,ep);
+        bool owned=(k%2)==0; int ep=(int)(k%3); AW(true,k%4<2,[&]{ normalize_event<ApiA>(t,m,owned,ep); },[&]{ normalize_event<ApiW>(t,m,owned,ep); });
         if(k%3001==0) g.sample(J().str("uri",show(t)).num("mask",m).boo("owned",owned).done()); } }
     { const char* segs[]={"",".","..","..","a","%41","b:c","...","..a","%2e%2E","%3A%61"}; long extra= g.thorough? 100000: 2500;
       for(long i=0;i<extra;++i){ Text r; int kind=R.below(8); if(kind==0) r=T("s:"); else if(kind==1) r=T("//h"); if(kind==1||R.below(5)==0) r.push_back('/'); int n=1+R.below(9); for(int j=0;j<n;++j){ if(j) r.push_back('/'); r=r+T(segs[R.below(11)]); }
-        unsigned m= (i%3)? 63u : 8u; if(i%2) normalize_event<ApiA>(r,m,(i%4)<2,(int)(i%3)); else normalize_event<ApiW>(r,m,(i%4)<2,(int)(i%3)); } }
+        unsigned m= (i%3)? 63u : 8u; AW(true,i%2,[&]{ normalize_event<ApiA>(r,m,(i%4)<2,(int)(i%3)); },[&]{ normalize_event<ApiW>(r,m,(i%4)<2,(int)(i%3)); }); } }
   } else if(mode=="c09"){
     size_t total=refs.size()*bases.size(); double keep= total>(size_t)want? (double)want/total:1.0; long k=0;
-    for(auto&r:refs){ if(has_pct_dot(r)) continue; for(auto&b:bases){ ++k; if(b.empty()||b[0]!='s') continue; if(keep<1.0 && (R.next()%1000000)>=keep*1000000) continue; if(k%2) c09_event<ApiA>(r,b); else c09_event<ApiW>(r,b);
+    for(auto&r:refs){ if(has_pct_dot(r)) continue; for(auto&b:bases){ ++k; if(b.empty()||b[0]!='s') continue; if(keep<1.0 && (R.next()%1000000)>=keep*1000000) continue; AW(true,k%2,[&]{ c09_event<ApiA>(r,b); },[&]{ c09_event<ApiW>(r,b); });
       if(k%4001==0) g.sample(J().str("ref",show(r)).str("base",show(b)).done()); } }
     { const char* segs[]={"",".","..","..","a","b","b:c","...","..a"}; long extra= g.thorough? 100000: 3000;
       for(long i=0;i<extra;++i){ Text r; if(R.below(8)==0) r=T("s:"); if(R.below(6)==0) r.push_back('/'); int n=1+R.below(9); for(int j=0;j<n;++j){ if(j) r.push_back('/'); r=r+T(segs[R.below(9)]); } if(R.below(4)==0) r=r+T("?q");
-        const Text&b=bases[R.below((int)bases.size())]; if(b.empty()||b[0]!='s') continue; if(i%2) c09_event<ApiA>(r,b); else c09_event<ApiW>(r,b); } }
+        const Text&b=bases[R.below((int)bases.size())]; if(b.empty()||b[0]!='s') continue; AW(true,i%2,[&]{ c09_event<ApiA>(r,b); },[&]{ c09_event<ApiW>(r,b); }); } }
   } else if(mode=="removebase"){
     std::vector<Text> U=abs_universe(g.thorough); size_t total=U.size()*U.size()*2; double keep= total>(size_t)want? (double)want/total:1.0; long k=0;
     for(auto&s:U) for(auto&b:U) for(int md=0;md<2;++md){ ++k; if(keep<1.0 && (R.next()%1000000)>=keep*1000000) continue;
-      if(k%2) removebase_event<ApiA>(s,b,md,(int)(k%3==0)); else removebase_event<ApiW>(s,b,md,(int)(k%3==0));
+      AW(true,k%2,[&]{ removebase_event<ApiA>(s,b,md,(int)(k%3==0)); },[&]{ removebase_event<ApiW>(s,b,md,(int)(k%3==0)); });
       if(k%9001==0) g.sample(J().str("source",show(s)).str("base",show(b)).num("mode",md).done()); }
     // non-absolute operands: the two dedicated error codes
-    for(const char*x:{"//h/a","/a","a","","?q"}) for(const char*y:{"s://h/a","//h/a","a"}) for(int md=0;md<2;++md){ removebase_event<ApiA>(T(x),T(y),md,0); removebase_event<ApiW>(T(y),T(x),md,1); }
+    for(const char*x:{"//h/a","/a","a","","?q"}) for(const char*y:{"s://h/a","//h/a","a"}) for(int md=0;md<2;++md){ AW(true,true,[&]{ removebase_event<ApiA>(T(x),T(y),md,0); },[&]{ removebase_event<ApiW>(T(x),T(y),md,0); }); AW(true,false,[&]{ removebase_event<ApiA>(T(y),T(x),md,1); },[&]{ removebase_event<ApiW>(T(y),T(x),md,1); }); }
     // longer random paths sharing prefixes of random length
     { const char* segs[]={"a","b","c","","a:b","%41","x"}; long extra= g.thorough? 150000: 3000; const char* auths[]={"","//h","//h","//u@h:1","//g"};
       for(long i=0;i<extra;++i){ const char*au=auths[R.below(5)]; Text pre; int np=R.below(5); bool abs=*au||R.below(3)>0; for(int j=0;j<np;++j){ pre=pre+T(segs[R.below(7)]); pre.push_back('/'); }
         auto tail=[&](){ Text t; int n=R.below(4); for(int j=0;j<n;++j){ if(j) t.push_back('/'); t=t+T(segs[R.below(7)]); } return t; };
         auto mk=[&](const char*a2){ Text t=T("s:")+T(a2); if(abs) t.push_back('/'); t=t+pre+tail(); if(R.below(4)==0) t=t+T("?q"); return t; };
-        Text s=mk(au), b=mk(R.below(6)==0? auths[R.below(5)] : au); if(i%2) removebase_event<ApiA>(s,b,(int)(i%4<1),(int)(i%3==0)); else removebase_event<ApiW>(s,b,(int)(i%4<1),(int)(i%3==0)); } }
+        Text s=mk(au), b=mk(R.below(6)==0? auths[R.below(5)] : au); AW(true,i%2,[&]{ removebase_event<ApiA>(s,b,(int)(i%4<1),(int)(i%3==0)); },[&]{ removebase_event<ApiW>(s,b,(int)(i%4<1),(int)(i%3==0)); }); } }
   } else if(mode=="equals"){
     // objects that differ in exactly one component (incl. absent vs empty), plus objects produced by resolution / normalization
     std::vector<Text> pool; for(const char*s:{"s://u@h:1/a/b?q#f","t://u@h:1/a/b?q#f","s://v@h:1/a/b?q#f","s://@h:1/a/b?q#f","s://h:1/a/b?q#f","s://u@g:1/a/b?q#f","s://u@h:2/a/b?q#f","s://u@h:/a/b?q#f","s://u@h/a/b?q#f","s://u@h:1/a/c?q#f","s://u@h:1/a/b/?q#f","s://u@h:1/a?q#f","s://u@h:1?q#f","s://u@h:1/?q#f","s://u@h:1/a/b?r#f","s://u@h:1/a/b?#f","s://u@h:1/a/b#f","s://u@h:1/a/b?q#g","s://u@h:1/a/b?q#","s://u@h:1/a/b?q",
@@ -166,15 +166,17 @@ VH_DRIVER(algebra){
     for(size_t i=0;i<n0;++i){ auto h=parse_holder<ApiA>(pool[i]); auto hw=parse_holder<ApiW>(pool[i]); if(h->ok && ApiA::NormalizeSyntax(&h->uri)==URI_SUCCESS && ApiW::NormalizeSyntax(&hw->uri)==URI_SUCCESS){ A.push_back(h); Wd.push_back(hw); names.push_back("normalize("+show(pool[i])+")"); } }
     long pairs=0; size_t n=A.size(); size_t total=n*n; double keep= total>(size_t)want? (double)want/total:1.0;
     for(size_t i=0;i<n;++i) for(size_t j=0;j<n;++j){ if(i!=j && keep<1.0 && (R.next()%1000000)>=keep*1000000) continue; ++pairs;
-      if(pairs%2) equals_event<ApiA>(A[i]->uri,A[j]->uri,names[i],names[j]); else if(Wd[i]->ok&&Wd[j]->ok) equals_event<ApiW>(Wd[i]->uri,Wd[j]->uri,names[i],names[j]);
+      AW(Wd[i]->ok&&Wd[j]->ok,pairs%2,[&]{ equals_event<ApiA>(A[i]->uri,A[j]->uri,names[i],names[j]); },[&]{ if(Wd[i]->ok&&Wd[j]->ok) equals_event<ApiW>(Wd[i]->uri,Wd[j]->uri,names[i],names[j]); });
       g.count(names[i]+"|"+names[j],i!=j); if(pairs%7001==0) g.sample(J().str("a",names[i]).str("b",names[j]).done()); }
     // two objects parsed from the same buffer start with different ends (ranges alias; equal pointers must not mean equal ranges)
     { for(const char*txt:{"http://example.com/docs/page.","//example.com","doc.html?x=1#sec-12","s://u@h:8080/a/b?q#frag","s:abc"}){ std::string bufA(txt); std::wstring bufW(bufA.begin(),bufA.end());
         for(size_t e1=bufA.size(); e1+3>=bufA.size() && e1>0; --e1) for(size_t e2=e1; e2+3>=bufA.size() && e2>0; --e2){
-          UriUriA a,b; const char*ep; if(uriParseSingleUriExA(&a,bufA.data(),bufA.data()+e1,&ep)!=URI_SUCCESS) continue; if(uriParseSingleUriExA(&b,bufA.data(),bufA.data()+e2,&ep)!=URI_SUCCESS){ uriFreeUriMembersA(&a); continue; }
-          equals_event<ApiA>(a,b,std::string(txt).substr(0,e1)+" (shared buffer)",std::string(txt).substr(0,e2)+" (shared buffer)"); g.count(std::string(txt)+std::to_string(e1*100+e2),e1!=e2); uriFreeUriMembersA(&a); uriFreeUriMembersA(&b);
-          UriUriW aw,bw; const wchar_t*epw; if(uriParseSingleUriExW(&aw,bufW.data(),bufW.data()+e1,&epw)!=URI_SUCCESS) continue; if(uriParseSingleUriExW(&bw,bufW.data(),bufW.data()+e2,&epw)!=URI_SUCCESS){ uriFreeUriMembersW(&aw); continue; }
-          equals_event<ApiW>(aw,bw,std::string(txt).substr(0,e1)+" (shared buffer)",std::string(txt).substr(0,e2)+" (shared buffer)"); uriFreeUriMembersW(&aw); uriFreeUriMembersW(&bw); } } }
+          std::string n1=std::string(txt).substr(0,e1)+" (shared buffer)", n2=std::string(txt).substr(0,e2)+" (shared buffer)";
+          auto runA=[&]{ UriUriA a,b; const char*ep; if(uriParseSingleUriExA(&a,bufA.data(),bufA.data()+e1,&ep)!=URI_SUCCESS) return; if(uriParseSingleUriExA(&b,bufA.data(),bufA.data()+e2,&ep)!=URI_SUCCESS){ uriFreeUriMembersA(&a); return; }
+            equals_event<ApiA>(a,b,n1,n2); uriFreeUriMembersA(&a); uriFreeUriMembersA(&b); };
+          auto runW=[&]{ UriUriW aw,bw; const wchar_t*epw; if(uriParseSingleUriExW(&aw,bufW.data(),bufW.data()+e1,&epw)!=URI_SUCCESS) return; if(uriParseSingleUriExW(&bw,bufW.data(),bufW.data()+e2,&epw)!=URI_SUCCESS){ uriFreeUriMembersW(&aw); return; }
+            equals_event<ApiW>(aw,bw,n1,n2); uriFreeUriMembersW(&aw); uriFreeUriMembersW(&bw); };
+          if(g.pair) AW(true,true,runA,runW); else { runA(); runW(); } g.count(std::string(txt)+std::to_string(e1*100+e2),e1!=e2); } } }
     // NULL arguments
     { int r1=ApiA::EqualsUri(nullptr,nullptr), r2=ApiA::EqualsUri(&A[0]->uri,nullptr), r3=ApiA::EqualsUri(nullptr,&A[0]->uri); if(!(r1==URI_TRUE&&r2==URI_FALSE&&r3==URI_FALSE)) g.violation(J().str("prop","C11").str("why","NULL arguments: two NULLs must be equal, NULL and non-NULL unequal").done()); }
   }
